@@ -188,6 +188,33 @@ DoOpOut(x, opnds, outa) ==
      IF ~x1.arr[outa].w THEN Collect(ReleaseAll(x1, refs0)) ELSE
      [x4 EXCEPT !.op[o] = [alive |-> TRUE, vars |-> ts, out |-> t, refs |-> refs, guarded |-> x.guard]]
 
+\* an in-place update of tensor t (an owner without registered views):   t[...] = value   /   t += value
+\* (Tensor._in_place_op): a placeholder tensor takes over t's old array, its creator and its consumers; the update is
+\* computed on a COPY of the memory with the guard switched off; afterwards - if guarding is on - the inputs are
+\* locked as usual and the new array is force-locked, with a finaliser on the in-place operation.
+InPlace(x, t, opnd) ==
+  LET a0 == x.ten[t].arr
+      \* the mutated copy is writeable iff the original is, or is merely locked by MyGrad
+      mutw == x.arr[a0].w \/ Tracked(x, a0)
+      w == WrapOperands(x, <<opnd>>, <<>>)
+      x0 == w.x vt == w.ts[1]
+  IN IF ~mutw THEN Collect(x0)          \* natively read-only target: the update raises, nothing changes
+     ELSE
+     LET pt == Pick(FreeT(x0))
+         x1 == [x0 EXCEPT !.ten[pt] = [alive |-> TRUE, arr |-> a0, creator |-> x0.ten[t].creator, base |-> 0, held |-> FALSE],
+                          !.op = [o \in Ops |-> IF @[o].alive
+                                                THEN [@[o] EXCEPT !.vars = [i \in 1..Len(@) |-> IF @[i] = t THEN pt ELSE @[i]]]
+                                                ELSE @[o]]]
+         a1 == Pick(FreeA(x1)) o == Pick(FreeO(x1))
+         vars2 == <<pt, IF vt = t THEN pt ELSE vt>>
+         x2 == [x1 EXCEPT !.arr[a1] = [alive |-> TRUE, owner |-> 0, w |-> TRUE, w0 |-> TRUE, held |-> FALSE, touched |-> TRUE],
+                          !.ten[t] = [alive |-> TRUE, arr |-> a1, creator |-> o, base |-> 0, held |-> TRUE]]
+         refs0 == IF x.guard THEN UAB(x2, vars2, {}) ELSE <<>>
+         x3 == LockAll(x2, refs0)
+         x4 == IF x.guard THEN Lock(x3, a1, TRUE) ELSE x3
+     IN Collect([x4 EXCEPT !.op[o] = [alive |-> TRUE, vars |-> vars2, out |-> t,
+                                      refs |-> IF x.guard THEN Append(refs0, a1) ELSE <<>>, guarded |-> x.guard]])
+
 \* a view operation on tensor p (basic indexing ...): the result's array is a NumPy view of p's array
 DoView(x, p) ==
   LET ts == <<p>>
@@ -229,6 +256,7 @@ Apply(x, e) ==
     [] e.k = "wrap"   -> Wrap(x, e.a)
     [] e.k = "op"     -> DoOp(x, e.ins)
     [] e.k = "opout"  -> DoOpOut(x, e.ins, e.out)
+    [] e.k = "inplace" -> InPlace(x, e.t, e.val)
     [] e.k = "view"   -> DoView(x, e.t)
     [] e.k = "fail"   -> FailOp(x, e.ins)
     [] e.k = "clear"  -> Clear(x, e.t)
@@ -255,6 +283,11 @@ Stmts(x) ==
                                                                a \in {b \in HeldA(x) : x.arr[b].w}} ELSE {})
   \cup (IF "failout" \in Alphabet /\ Room(x, 0, 2, 0) THEN
           {[k |-> "fail", ins |-> <<p, q>>, badout |-> TRUE] : p \in Operands(x), q \in Operands(x)} ELSE {})
+  \cup (IF "inplace" \in Alphabet /\ Room(x, 1, 2, 1) THEN
+          {[k |-> "inplace", t |-> t, val |-> p] :
+             t \in {u \in HeldT(x) : x.arr[x.ten[u].arr].owner = 0 /\ x.ten[u].base = 0
+                                       /\ ~\E v \in Ten : x.ten[v].alive /\ x.ten[v].base = u},
+             p \in Operands(x)} ELSE {})
   \cup (IF "view" \in Alphabet /\ Room(x, 1, 1, 1) THEN {[k |-> "view", t |-> t] : t \in HeldT(x)} ELSE {})
   \cup (IF "fail" \in Alphabet /\ Room(x, 0, 2, 0) THEN
           {[k |-> "fail", ins |-> <<p, q>>] : p \in Operands(x), q \in Operands(x)} ELSE {})
